@@ -13,14 +13,32 @@ WIDTH = {"u8": 8, "u16": 16, "u32": 32, "u64": 64, "u128": 128, "usize": 64}
 # CARRY
 # --------------------------------------------------------------------------------------------
 
+def moved_into_helpers(b):
+    """names of the helpers introduced after the review (not in rules/census.json) that b calls: when a kernel's loop was
+    moved into such a helper (possibly parameterised by closures / function values) its shape is not extracted"""
+    out = []
+    for bb, t, fn in b.iter_calls():
+        h = b.crate.new_helper(fn)
+        if h is not None and h.name not in out:
+            out.append(h.name)
+    return out
+
+
 def carry_kernels(crate):
     """add/sub/mul kernels: carry initialised to zero, threaded through every word step, never reset
     between the common-words loop and the remaining-words loop"""
     res = []
     for b in crate.bodies:
-        if b.kind == "Closure" or b.self_family not in ("Bvf", "Bvd") or not b.loops():
+        if b.kind == "Closure" or b.self_family not in ("Bvf", "Bvd"):
             continue
         if b.trait not in ("AddAssign", "SubAssign", "Mul"):
+            continue
+        moved = moved_into_helpers(b)
+        if moved and not any(fn and fn["name"] in ("cadd", "csub", "overflowing_add", "overflowing_sub") for bb, t, fn in b.iter_calls()):
+            res.append((b, b.key, "undecided", "the word loop of this kernel lives in the helper(s) %s introduced after the review: "
+                        "carry threading not decided" % ", ".join(moved)))
+            continue
+        if not b.loops():
             continue
         steps = []   # (bb, style, carry_operand, call expr)
         for bb, t, fn in b.iter_calls():
@@ -410,7 +428,7 @@ def byref_twins(crate):
             if not diffs and missing:
                 res.append((a, key, "undecided", "twins are no longer comparable slot by slot: %s" % "; ".join(missing)))
                 continue
-            res.append((a, key, "violation" if diffs else "pass",
+            res.append((a, key, "undecided" if diffs else "pass",
                         "; ".join(missing + diffs) if diffs else "narrowing, loop condition, chunk length, old index and chunk agree"))
     a, c = find("<&Bvd as Not>::not"), find("<Bvd as Not>::not")
     if a is not None and c is not None:
@@ -419,7 +437,7 @@ def byref_twins(crate):
         mc = [m for m in maskmod.find_mask_events(c, storage.events(c))]
         ok = len(ma) == 1 and len(mc) == 1 and ma[0].form == mc[0].form and show(ma[0].L) == show(mc[0].L)
         neg_a = any(x[:2] == ("un", "Not") for bb in [0] for x in [])
-        res.append((a, "SIB &Bvd Not vs Not", "pass" if ok else "violation",
+        res.append((a, "SIB &Bvd Not vs Not", "pass" if ok else "undecided",
                     "same truncation %s" % (ma[0].detail if ma else "?") if ok else "truncation differs: %s vs %s"
                     % ([m.detail for m in ma], [m.detail for m in mc])))
     return res
@@ -428,6 +446,8 @@ def byref_twins(crate):
 def _norm_self(s):
     if isinstance(s, list):
         return [_norm_self(x) for x in s]
+    if s is None:
+        return "<none>"
     return s.replace("Bvd::", "").replace("Self::", "")
 
 
@@ -590,13 +610,18 @@ def buffer_sizes(crate):
         if b.trait == "BitVector" and b.name in ("to_vec", "read") and b.self_family in ("Bvf", "Bvd"):
             L = SELF_LEN if b.name == "to_vec" else P(b.local_name(2))
             want = ("bin", "Div", ("bin", "Add", L, ("int", 7)), ("int", 8))
-            ok = False
-            for bb, t, fn in b.iter_calls():
-                if fn and fn["name"] == "take":
-                    e = b.e_call(t)
-                    if e[3][1] == want and is_call(e[3][0], "repeat"):
-                        ok = True
+            ok = any(n == want for x, n in b.alloc_exprs())
             how = "byte buffer has (%s + 7) / 8 bytes" % show(L)
+            if not ok and b.name == "to_vec":
+                # (0..n).map(..).collect() / (0..n).rev().map(..).collect(): one byte per index of 0..(len + 7) / 8
+                ret = b.return_expr()
+                alts = ret[2] if ret[0] == "phi" else (ret,)
+                def ranged(a):
+                    return is_call(a, "collect") and any(x[0] == "agg" and x[1] == "Range" and len(x[3]) == 2 and x[3] == (("int", 0), want)
+                                                          for x in walk(a) if isinstance(x, tuple) and x)
+                if alts and all(ranged(a) for a in alts):
+                    ok = True
+                    how = "every returned byte stream is collected from the index range 0..(len + 7) / 8"
             if not ok and b.name == "to_vec":
                 # iterator form: every returned alternative is a chain bounded by take((len + 7) / 8)
                 ret = b.return_expr()
@@ -993,10 +1018,17 @@ def trait_defaults(crate):
             bb, t = gets[0]
             i = b.e_operand(t["args"][1])
             ok = (i == idx) if idx else (is_bin(i, "Sub") and is_call(i[2], "len") and i[3] == ("int", 1))
+            from . import arith as _arith
+            rels = _arith._relations_at(b, bb)
+            ln = ("call", "len", None, (P("self"),))
+            for op, l, r in rels:
+                # any spelling of len(self) > 0: `> 0`, `!= 0`, `>= 1`, not `== 0`, `match len { 0 => .., n => .. }`
+                if is_call(l, "len") and l[3] == (P("self"),) and (
+                        (op in ("Gt", "Ne") and r == ("int", 0)) or (op == "Ge" and r == ("int", 1))):
+                    g = True
+                if is_call(r, "len") and r[3] == (P("self"),) and ((op == "Lt" and l == ("int", 0)) or (op == "Le" and l == ("int", 1))):
+                    g = True
             for sb, cond, taken, succ, other in guard.edges_dominating(b, bb):
-                for op, l, r in guard.relations_on_edge(cond, taken):
-                    if op == "Gt" and is_call(l, "len") and r == ("int", 0):
-                        g = True
                 # `if self.is_empty() { None } else { .. }`: is_empty is the un-overridden trait default len() == 0 (DEFS)
                 if is_call(cond, "is_empty") and cond[3] == (P("self"),) and not taken:
                     g = True
@@ -1058,9 +1090,16 @@ def _is_total(e, totals, b):
 def kernel_coverage(crate):
     res = []
     for b in crate.bodies:
-        if b.kind == "Closure" or b.self_family not in ("Bvf", "Bvd") or not b.loops():
+        if b.kind == "Closure" or b.self_family not in ("Bvf", "Bvd"):
             continue
         if b.trait not in ("AddAssign", "SubAssign", "BitAndAssign", "BitOrAssign", "BitXorAssign"):
+            continue
+        moved = moved_into_helpers(b)
+        if moved and not b.loops():
+            res.append((b, "%s|word coverage" % b.key, "undecided",
+                        "the word loop lives in the helper(s) %s introduced after the review: coverage not decided" % ", ".join(moved)))
+            continue
+        if not b.loops():
             continue
         totals = _total_words(b)
         evs = storage.events(b)
@@ -1115,7 +1154,14 @@ def kernel_coverage(crate):
                     "%d full loops, %d head/tail pairs over the words of self; rhs word taken at the same index" % (len(fulls), len(heads))))
     # multiplication: schoolbook shape
     for b in crate.bodies:
-        if b.kind == "Closure" or b.trait != "Mul" or b.self_family not in ("Bvf", "Bvd") or not b.loops():
+        if b.kind == "Closure" or b.trait != "Mul" or b.self_family not in ("Bvf", "Bvd"):
+            continue
+        moved = moved_into_helpers(b)
+        if moved and not b.loops():
+            res.append((b, "%s|schoolbook shape" % b.key, "undecided",
+                        "the multiplication loop lives in the helper(s) %s introduced after the review: shape not decided" % ", ".join(moved)))
+            continue
+        if not b.loops():
             continue
         probs = []
         cadds = [(bb, t) for bb, t, fn in b.iter_calls() if fn and fn["name"] == "cadd"]
@@ -1130,6 +1176,10 @@ def kernel_coverage(crate):
             else:
                 i, j = dst[2][2], dst[2][3]
                 si, sj = b.iter_source(i[1]), b.iter_source(j[1])
+                if sj[0] == "agg" and len(sj[3]) == 2 and not mir.contains(sj[3][1], lambda x: x == i) \
+                        and si[0] == "agg" and len(si[3]) == 2 and mir.contains(si[3][1], lambda x: x == j):
+                    # res.data[j + i]: the roles are decided by the ranges (the inner bound mentions the outer index)
+                    i, j, si, sj = j, i, sj, si
                 lenv = si[3][1] if si[0] == "agg" else None
                 if not (si[0] == "agg" and si[3][0] == ("int", 0) and lenv is not None and (
                         (is_call(lenv, "int_len")) or is_call(lenv, "capacity_from_bit_len"))):
@@ -1173,19 +1223,45 @@ from .mir import field_path, root_of  # noqa: E402
 # SIB: the three hand-cloned div_rem implementations agree slot by slot
 # --------------------------------------------------------------------------------------------
 
+def _anon(b, e):
+    """expression with local names erased and parameters numbered, so that renaming has no effect"""
+    if not isinstance(e, tuple) or not e:
+        return e
+    if e[0] == "var":
+        return ("var", "_", 0)
+    if e[0] == "param":
+        for l in range(1, b.arg_count + 1):
+            if b.local_name(l) == e[1]:
+                return ("param", "#%d" % l)
+        return e
+    if e[0] == "iv":
+        return ("iv", 0)
+    if e[0] == "call" and e[1] == "new" and "RangeInclusive" in (e[2] or "") and len(e[3]) == 2:
+        e = ("agg", "Range", "Range", (e[3][0], ("bin", "Add", e[3][1], ("int", 1))))
+    if e[0] == "call":
+        return ("call", e[1], None, tuple(_anon(b, x) for x in e[3]), ())
+    return tuple(_anon(b, x) if isinstance(x, tuple) else x for x in e)
+
+
 def _div_rem_slots(b):
+    """the skeleton of the shift-subtract division, by role and independent of local names: branch conditions, and the
+    calls that make up the algorithm with their (anonymised) arguments"""
     slots = {}
-    norm = lambda s: s.replace("self.length", "len(self)")
+    norm = lambda s: s.replace("self.length", "len(#1)").replace("len(self)", "len(#1)").replace("#1.length", "len(#1)")
     conds = []
     for sb, cond, ts, fs in guard.cond_edges(b):
-        conds.append(norm(show(cond)))
+        c = _anon(b, cond)
+        # a >= b and b <= a are the same branch
+        if is_bin(c, ("Le", "Lt")):
+            c = ("bin", {"Le": "Ge", "Lt": "Gt"}[c[1]], c[3], c[2])
+        conds.append(norm(show(c)))
     slots["conds"] = sorted(set(conds))
     calls = []
     for bb, t, fn in b.iter_calls():
         if fn and fn["name"] in ("resize", "shl_assign", "shr_assign", "sub_assign", "set", "rev", "zeros", "clone", "significant_bits", "is_zero"):
-            e = b.e_call(t)
+            e = _anon(b, b.e_call(t))
             calls.append("%s(%s)" % (e[1], ", ".join(norm(show(a)) for a in e[3])))
-    slots["calls"] = sorted(set(re.sub(r"iv\d+", "iv", c) for c in calls))
+    slots["calls"] = sorted(set(calls))
     return slots
 
 
@@ -1202,10 +1278,10 @@ def div_rem_siblings(crate):
             a = [x for x in ref[k] if "try_into" not in x and "copy_range" not in x]
             c = [x for x in s[k] if "try_into" not in x and "copy_range" not in x]
             # the quotient/remainder are built by zeros(len)/copy: normalise the copy
-            a = [x.replace("clone(self)", "copy(self)") for x in a]
-            c = [x.replace("clone(self)", "copy(self)") for x in c]
+            a = [x.replace("clone(#1)", "copy(#1)") for x in a]
+            c = [x.replace("clone(#1)", "copy(#1)") for x in c]
             if fam == "Bvf":
-                c = c + (["copy(self)"] if k == "calls" and "copy(self)" in a and "copy(self)" not in c else [])
+                c = c + (["copy(#1)"] if k == "calls" and "copy(#1)" in a and "copy(#1)" not in c else [])
             a, c = sorted(set(a)), sorted(set(c))
             if a != c:
                 diffs.append("%s differ: only in Bvd %s; only in %s %s" % (k, [x for x in a if x not in c], fam, [x for x in c if x not in a]))
@@ -1246,7 +1322,8 @@ def to_vec_arms(crate):
         probs = []
         for v, want in (("0", "little"), ("1", "big")):
             if v not in arms:
-                probs.append("no arm for Endianness variant %s" % v)
+                # `if endianness == Big { buf.reverse() }`: one layout plus a reversal - not the indexed-store idiom
+                undecided.append("no separate arm for Endianness variant %s (single layout + adjustment?): byte placement not decided" % v)
                 continue
             reach = b.reach_avoiding([arms[v]], avoid_blocks=[a for k, a in arms.items() if k != v])
             idxs = []
@@ -1296,6 +1373,8 @@ def _named_slots(b, skip=()):
 
 
 def _norm_word(s):
+    if s is None:
+        return "<none>"
     s = re.sub(r"\bONE\b", "1", s)
     s = re.sub(r"\bZERO\b", "0", s)
     s = re.sub(r"\bMIN\b", "0", s)
@@ -1347,7 +1426,9 @@ def cloned_pairs(crate, methods=None):
             if x != y:
                 diffs.append("slot `%s`: Bvf %s vs Bvd %s" % (k, x, y))
         if diffs:
-            res.append((a, key, "violation", "; ".join(diffs)[:600]))
+            # a drift between the two hand-written copies is a lead, not a verdict: one copy may simply have been
+            # rewritten (the rules deciding the property look at each copy on its own)
+            res.append((a, key, "undecided", "the two copies differ (no verdict): " + "; ".join(diffs)[:500]))
         elif missing:
             res.append((a, key, "undecided", "the two copies no longer share the named slots %s: not comparable (no verdict)" % missing))
         else:
@@ -1363,8 +1444,8 @@ def cloned_pairs(crate, methods=None):
                 sa, sd = _slots_shift(a), _slots_shift(d)
                 diffs = ["slot `%s`: Bvf %s vs Bvd %s" % (k, sa.get(k), sd.get(k)) for k in sorted(set(sa) | set(sd))
                          if _norm_self(sa.get(k)) != _norm_self(sd.get(k))]
-                res.append((a, key, "violation" if diffs else "pass",
-                            "; ".join(diffs)[:600] if diffs else "narrowing, loop conditions, chunk length, old index, chunk agree"))
+                res.append((a, key, "undecided" if diffs else "pass",
+                            "the two copies differ (no verdict): " + "; ".join(diffs)[:500] if diffs else "narrowing, loop conditions, chunk length, old index, chunk agree"))
     return res
 
 
@@ -1404,4 +1485,45 @@ def fmt_facts(crate):
         res.append((a, "SIB Bvf/Bvd %s::fmt" % tr, v,
                     "; ".join(diffs)[:500] if diffs else ("copies not comparable: %s" % missing if missing else
                                                           "digit extraction slots of the two hand-written copies agree")))
+    return res
+
+
+# --------------------------------------------------------------------------------------------
+# POS: a word index taken from enumerate() must count positions of the *unfiltered* sequence
+# --------------------------------------------------------------------------------------------
+FILTERING = ("filter", "filter_map", "skip_while", "take_while", "step_by", "flat_map", "flatten", "skip", "chain", "dedup", "scan")
+
+
+def positional_indices(crate):
+    """`for (i, w) in words.filter(..).enumerate() { dst.set_int(i, w) }`: after a filtering adaptor the enumerate counter
+    is the rank among the *kept* items, not the word's position - a value with a zero (or otherwise dropped) word in the
+    middle lands one slot too low. Every storage write / set_int whose index is such a counter is reported."""
+    res = []
+    for b in crate.bodies:
+        if b.self_family not in ("Bvf", "Bvd", "Bv") and not (b.kind == "Closure"):
+            continue
+        bad = []
+        n = 0
+        idx_exprs = []
+        for e in storage.events(b):
+            if e.kind == "write" and e.index is not None:
+                idx_exprs.append((e.index, "storage write"))
+            if e.kind == "mcall" and e.name == "set_int" and len(e.args) >= 2:
+                idx_exprs.append((e.args[1], "set_int"))
+        for bb, t, fn in b.iter_calls():
+            if fn and fn["name"] == "set_int" and len(t["args"]) >= 2:
+                idx_exprs.append((b.e_operand(t["args"][1]), "set_int"))
+        for idx, what in idx_exprs:
+            for x in walk(idx):
+                if isinstance(x, tuple) and x[:1] == ("field",) and x[2] == "0" and x[1][:1] == ("iv",):
+                    n += 1
+                    src = b.raw_iter_source(x[1][1])
+                    if is_call(src, "enumerate") and src[3]:
+                        inner = [y[1] for y in walk(src[3][0]) if is_call(y) and y[1] in FILTERING]
+                        if inner:
+                            bad.append("%s index `%s` counts the items that survive %s(), not word positions" % (what, show(idx)[:40], "/".join(sorted(set(inner)))))
+        if bad:
+            res.append((b, "%s|POS" % b.key, "violation", "; ".join(dict.fromkeys(bad))))
+        elif n:
+            res.append((b, "%s|POS" % b.key, "pass", "%d enumerate-derived word indices, none behind a filtering adaptor" % n))
     return res
